@@ -1,6 +1,7 @@
 package engines
 
 import (
+	"time"
 	"fmt"
 	"sort"
 	"strconv"
@@ -235,7 +236,20 @@ type xpObs struct {
 	panicked string
 }
 
-func xpObserve(in []byte) (o xpObs) {
+// xpObserve runs the real lexer+parser under a watchdog: an input on which they do not finish
+// (C28: "finish") is observed as levels="hang" instead of blocking the whole harness.
+func xpObserve(in []byte) xpObs {
+	done := make(chan xpObs, 1)
+	go func() { done <- xpObserve1(in) }()
+	select {
+	case o := <-done:
+		return o
+	case <-time.After(20 * time.Second):
+		return xpObs{levels: "hang"}
+	}
+}
+
+func xpObserve1(in []byte) (o xpObs) {
 	defer func() {
 		if p := recover(); p != nil {
 			o.panicked = Canon(fmt.Sprint(p))
@@ -567,6 +581,14 @@ var xpHeaders = []string{"", "syntax = \"proto3\";\npackage p;\n", "edition = \"
 // inside messages/enums/services, nested bodies, unbalanced bodies), and one-bracket mutants of
 // valid files: each bracket inserted at every declaration boundary, each bracket removed.
 func xpDirected(add func([]byte)) {
+	// numerals whose integer / power-of-five form cannot be materialized (the parser must finish)
+	for _, n := range []string{"1e999999999", "1e2000000000", "1e-2000000000", "5E+2147483647", "123456789e-2147483640",
+		"0x1p999999999", "0x1p-999999999", ".1e1000000000", "1e19", "1e20", "18446744073709551616e0"} {
+		add([]byte("syntax = \"proto3\";\nmessage M { int32 x = " + n + "; }\n"))
+		add([]byte("option x = " + n + ";"))
+		add([]byte("message M { optional double d = 1 [default = " + n + "]; }"))
+		add([]byte("message M { optional double d = 1 [default = -" + n + "]; }"))
+	}
 	for _, h := range xpHeaders {
 		for _, c := range xpContexts {
 			for _, d := range xpDecls {
